@@ -38,6 +38,7 @@ func (txn *Txn) QueryAt(index uint32, f func(Row) error) (err error) {
 	txn.cursor = index
 
 	chunk := commit.ChunkAt(index)
+	simYield(txn.owner, simBeforeRLock, uint32(chunk))
 	lock.RLock(uint(chunk))
 	err = f(Row{txn})
 	lock.RUnlock(uint(chunk))
@@ -53,6 +54,7 @@ func (txn *Txn) rangeRead(f func(chunk commit.Chunk, index bitmap.Bitmap)) {
 	lock := txn.owner.slock
 
 	for chunk := commit.Chunk(0); chunk <= limit; chunk++ {
+		simYield(txn.owner, simBeforeRLock, uint32(chunk))
 		lock.RLock(uint(chunk))
 		f(chunk, chunk.OfBitmap(txn.index))
 		lock.RUnlock(uint(chunk))
@@ -67,6 +69,7 @@ func (txn *Txn) rangeReadPair(column *column, f func(a, b bitmap.Bitmap)) {
 
 	// Iterate through all of the chunks and acquire appropriate shard locks.
 	for chunk := commit.Chunk(0); chunk <= limit; chunk++ {
+		simYield(txn.owner, simBeforeRLock, uint32(chunk))
 		lock.RLock(uint(chunk))
 		f(chunk.OfBitmap(txn.index), column.Index(chunk))
 		lock.RUnlock(uint(chunk))
@@ -80,6 +83,7 @@ func (txn *Txn) rangeWrite(fn func(commitID uint64, chunk commit.Chunk, fill bit
 	txn.dirty.Range(func(x uint32) {
 		chunk := commit.Chunk(x)
 		commitID := commit.Next()
+		simYield(txn.owner, simBeforeLock, uint32(chunk))
 		lock.Lock(uint(chunk))
 
 		// Compute the fill and set the last commit ID
@@ -91,5 +95,6 @@ func (txn *Txn) rangeWrite(fn func(commitID uint64, chunk commit.Chunk, fill bit
 		// Call the delegate
 		fn(commitID, chunk, fill)
 		lock.Unlock(uint(chunk))
+		simYield(txn.owner, simAfterUnlock, uint32(chunk))
 	})
 }
